@@ -128,6 +128,9 @@ fn expiry_sweep_with(rep: &Report, fewer: u8) -> (u64, u64, u64) {
     // heavy roots (more than 10 pieces) fewer iterations
     let depth_of = move |r: &crate::e2_clockpoints::Root| -> u8 {
         let pieces = r.pos.b.iter().filter(|x| **x != 0).count();
+        if pieces > 20 {
+            return 1; // one iteration is already 10^5 nodes of capture search
+        }
         match (quick, pieces > 10) {
             (true, true) => 2,
             (true, false) => 5 - fewer,
